@@ -350,7 +350,7 @@ PROPS["C18"] = {
     "runs": [run("TestC18", (8000, 8), (150000, 16))],
     "rule": "cases = (deny rule in phase 1-4 or none, deny status (including 99, 103 and 1000, which no final response can carry: refused, or answered with anything but a success), request / response body access (configured, or switched on by ctl:responseBodyAccess=On in phase 1-3), body limits 4..40 with both limit actions) x "
             "(request with or without the triggering header, body length below / at / above the limit, known or unknown length) x handler "
-            "script (reads the body fully / partly / not at all; optional WriteHeader with 200/201/404/500/204/304; content type in or out of "
+            "script (reads the body fully / partly / not at all; optional WriteHeader with 200/201/404/500/204/304; content type in or out of (and in other spellings of) "
             "the MIME list; extra header; body written in arbitrary chunks through Write and ReadFrom with interleaved Flush), driven through "
             "httptest.NewRecorder and, for one case in five, a real httptest server and client; in half of the cases the WAF has served another "
             "request before, and in a third that request's spill file was removed from the temporary directory while it was being served "
@@ -363,7 +363,7 @@ PROPS["C18"] = {
                           "response-body-at-limit", "writes-with-flush-between", "partial-request-body-spliced", "partial-response-body-released",
                           "real-server", "chunked-request", "no-body-status", "implicit-write-header", "file-reader-on-real-server", "blocked-by-redirect", "blocked-by-drop", "blocked-late-by-redirect", "informational-response-first", "silent-handler",
                           "after-another-request", "predecessor-spill-file-removed", "unusable-status-refused",
-                          "response-body-access-switched-on-by-ctl"]},
+                          "response-body-access-switched-on-by-ctl", "content-type-in-another-spelling"]},
     "assumptions": COMMON_ASSUME + [
         "a redirect is expected to answer with the interruption's status (302 unless the rule names 301/307) and the target in Location; a drop, which "
         "has no status of its own, with anything but a success status and none of the handler's output",
